@@ -314,7 +314,19 @@ def gen_lang(rng: random.Random) -> Lang:
                         ps[j] = ('b', rng.choice(cands))
                     slack = "declared_narrower_than_body" if sound else "declared_wider_than_body"
                     break
-        lang.ops.append({"name": f"d{di}", "nvars": 0, "type": fn(ps, res), "body": (k, body), "slack": slack})
+        nvars = 0
+        if slack is None and r > 0.88:
+            # declare one base position with a schematic variable instead (`wrap : x ** B` over a
+            # body that needs A): more general than the body allows, validate() has to refuse it
+            pos = [j for j, p_ in enumerate(ps) if p_[0] == 'b'] + ([-1] if res[0] == 'b' else [])
+            if pos:
+                j = rng.choice(pos)
+                if j < 0:
+                    res = ('v', 0)
+                else:
+                    ps[j] = ('v', 0)
+                nvars, slack = 1, "declared_with_a_variable"
+        lang.ops.append({"name": f"d{di}", "nvars": nvars, "type": fn(ps, res), "body": (k, body), "slack": slack})
         if not small_normal_form(lang, ('op', len(lang.ops) - 1), max_nodes=300):
             lang.ops.pop()      # thrice (thrice thrice) ... : the definition alone is astronomic
             continue
